@@ -55,6 +55,18 @@ cancel_call.modifies = []
 CALLS["self._cancel_command"] = cancel_call
 
 
+def finalize_call(ctx, args, kwargs):
+    """CommandManager._finalize_command(request, cmd): runs the user finalizer, which MAY RAISE (the request is retired all the same:
+    try/finally in the real function, contract in C10)"""
+    if ctx.choose(2, "user finalizer outcome") == 1:
+        ctx.raise_("Exception", "finalize callback raised")
+    return ctx.none()
+
+
+finalize_call.modifies = []
+CALLS["self._finalize_command"] = finalize_call
+
+
 def on_exit(ctx, kind, result):
     req = ctx.local("cmd_request")
     marks = ctx.ghost.get("conclusive", [])
@@ -85,31 +97,52 @@ execute_command = Contract(
            "for c in self.currently_executing#1": LoopSpec(invariant=c10.LOOP_INV, assumed=True),
            "for overlap_list in self.uod.overlapping_command_names_lists": LoopSpec(invariant=c10.LOOP_INV, assumed=True)})
 
-CONTRACTS = [execute_command]
+# ---- the interpreter side of the same necessary condition (contracts shared with C12) --------------------------------------------------
+# RuntimeInfo raises when a Cancelled (or Forced) state is followed by Completed/Started for the same instance. The interpreter runs the
+# body of a Watch / Alarm whose condition has fired regardless of a later cancel, and marks it completed. So a cancel / force may only
+# be ACCEPTED (and recorded by Tracking.mark_cancelled / mark_forced) while the instruction can still be stopped: the cancel/force laws
+# of NodeWithCondition and the two tracking marks are obligations of this property as well.
+import contracts.c12 as c12        # noqa: E402
+SHARED = [c for c in c12.node_laws if c.variant == "NodeWithCondition"] + [c12.mark_cancelled, c12.mark_cancelled_req, c12.mark_forced]
+CONTRACTS = [execute_command] + SHARED
 TARGETS = [c.key for c in CONTRACTS]
 TRUSTED = ["ASSUMED (not proved): the two scans at the top of _execute_uod_command only cancel (and mark) OTHER requests",
-           "tracking bookkeeping does not raise; uod initialize/execute callbacks may raise anything; user finalizers do not raise",
+           "tracking bookkeeping does not raise; uod initialize/execute callbacks and user finalizers may raise anything",
            "RuntimeInfo._get_record_runlog_items needs at most one conclusive state per invocation (read in the code: it raises AssertionError otherwise); "
-           "that consumer, the interpreter's own marks for instruction nodes and internal engine commands are NOT under this contract"]
-CLAUSES = {"for any execution the run log can be produced": "necessary condition on the producer side for UOD command requests: at most one conclusive state per execution (all paths of _execute_command, including failing callbacks)",
+           "that consumer, the interpreter's own Started/Completed marks for instruction nodes and internal engine commands are NOT under this contract (read: visit_WatchNode runs an activated body regardless of a later cancel)"]
+CLAUSES = {"for any execution the run log can be produced": "necessary conditions on the producer side: (1) UOD command requests: at most one conclusive state per execution (all paths of _execute_command, including failing callbacks); (2) Watch/Alarm: a cancel or force is accepted and recorded only before activation (cancel/force laws of NodeWithCondition, Tracking.mark_cancelled / mark_forced record a state only for an accepted request; shared with C12)",
            "ordered by start time, distinct ids, no item ends before it starts, conclusive items have an end time and are not cancellable/forcible, completed instructions appear": "NOT covered"}
 EXPLANATION = "Partial claim: ghost count of conclusive tracking marks per request on every exit of CommandManager._execute_command."
 
 
 def replay(obligation, witness):
     import contracts.c15_native as n
-    r = n.failing_uod_command_keeps_the_run_log_producible()
+    if "mark_cancelled" in obligation and "invocation" in obligation:
+        r = n.alarm_refiring_over_a_long_running_command()
+    elif "no-conclusive-state-before-the-failure" in obligation:
+        r = n.finalizer_that_raises_after_completion()
+        if not r["violated"]:
+            r = n.failing_uod_command_keeps_the_run_log_producible()
+    else:
+        r = n.failing_uod_command_keeps_the_run_log_producible()
     return {"confirmed": bool(r["violated"]), **r}
 
 
 REPLAY_WITHOUT_WITNESS = True
 
 
-def _nat():
-    import contracts.c15_native as n
-    r = n.failing_uod_command_keeps_the_run_log_producible()
-    return {"ok": not r["violated"], "observation": r}
+def _mk(fn):
+    def run():
+        import contracts.c15_native as n
+        r = getattr(n, fn)()
+        return {"ok": not r["violated"], "observation": r}
+    return run
 
 
-NATIVE = [("native:failing-uod-command-keeps-the-run-log-producible", _nat)]
-BOUNDED = ["one native scenario on the real engine (UOD command whose callback raises): bounded, not counted"]
+NATIVE = [("native:failing-uod-command-keeps-the-run-log-producible", _mk("failing_uod_command_keeps_the_run_log_producible")),
+          ("native:force-of-a-completed-wait", _mk("force_of_a_completed_wait")),
+          ("native:cancel-of-a-command-awaiting-its-threshold", _mk("cancel_of_a_command_awaiting_its_threshold")),
+          ("native:finalizer-that-raises-after-completion", _mk("finalizer_that_raises_after_completion")),
+          ("native:alarm-refiring-over-a-long-running-command", _mk("alarm_refiring_over_a_long_running_command"))]
+BOUNDED = ["five native scenarios on the real engine (failing execute callback, force of a completed Wait, cancel of a command awaiting its "
+           "threshold, raising finalizer, Alarm firing again over a running command): the run log must stay producible; bounded, not counted"]
